@@ -42,7 +42,7 @@ func TestVerifC09Racing(t *testing.T) {
 	rep.Assume("while a clean races with appends the segment that was newest at its start may grow between the cleaner's limit evaluations: necessity is checked with that segment's FINAL size (the largest it can have had), sufficiency with its size BEFORE the clean (the smallest), over the segments that existed when the clean started; segments rolled during the clean are not subject to this clean")
 	rep.Assume("in the 'early' schedule the clean's snapshot is unknown: only 'gap-free suffix ending at the newest offset', 'newest segment kept', necessity with final sizes of the whole log and sufficiency over the pre-existing segments are checked")
 	root := kit.NewRNG(kit.Mix(kit.Seed(), 0xC09C))
-	ncases := kit.Scale(200, 1000)
+	ncases := kit.Scale(300, 1000)
 	for i := 0; i < ncases && rep.NumViolations() < 12; i++ {
 		c09RunRacing(rep, root.Fork(uint64(i)), i)
 	}
